@@ -5987,7 +5987,9 @@ class Parser:
             expression = this.expression
 
             if expression:
-                for arg in self.SET_OP_MODIFIERS:
+                # sorted: the modifiers are a set, and the order in which they are attached is
+                # visible in the tree (repr, dump), so it must not depend on the string hash seed
+                for arg in sorted(self.SET_OP_MODIFIERS):
                     expr = expression.args.get(arg)
                     if expr:
                         this.set(arg, expr.pop())
